@@ -79,6 +79,20 @@ pub open spec fn wrote_prefix(before: Seq<u8>, now: Seq<u8>, full: Seq<u8>) -> b
     is_prefix(before, now) && is_prefix(now, before + full)
 }
 
+// (proved, not assumed) prefix algebra used at the `?` exits of the encoders
+pub broadcast proof fn lemma_prefix_add(a: Seq<u8>, d: Seq<u8>)
+    ensures is_prefix(a, #[trigger] (a + d))
+{
+    assert((a + d).take(a.len() as int) =~= a);
+}
+pub broadcast proof fn lemma_prefix_trans(a: Seq<u8>, b: Seq<u8>, c: Seq<u8>)
+    requires #[trigger] is_prefix(a, b), #[trigger] is_prefix(b, c)
+    ensures is_prefix(a, c)
+{
+    assert(c.take(a.len() as int) =~= b.take(a.len() as int));
+}
+pub broadcast group group_prefix { lemma_prefix_add, lemma_prefix_trans }
+
 // Vec<u8> as a sink: never fails (std's impl Write for Vec<u8>)
 impl IoWrite for Vec<u8> {
     open spec fn written(&self) -> Seq<u8> { self@ }
